@@ -80,3 +80,12 @@ def add_record(b, k, ident, args=None, extra=None):
 
 def exc_name(e):
     return type(e).__name__
+
+
+def stub_logging_str(ctx):
+    """Stage A stub: ProvBundle.__eq__ formats str(record) for a logger.debug() call; that text is irrelevant to the
+    properties checked where this is used and forks on every digit of a symbolic int.  Listed in evidence as a stub."""
+    if ctx.sym:
+        import prov.model as pm
+
+        pm.ProvRecord.__str__ = lambda self: "<record>"
